@@ -20,6 +20,7 @@ const unknownRel = "generator/golang/extension/unknown"
 func c09(c *core.Check) {
 	c.Explain = "ENUM + TMPL: (1) the unknown-field codec (extension/unknown read/write) is total and symmetric over the 11 value-bearing wire types of the binary protocol: the T* constants equal the spec numbers, both switches have exactly those arms, the default arm rejects, each scalar arm uses the Read/Write methods of its own type, each container arm frames Begin..End of its own kind and recurses for every element (map: key and value; struct: until STOP), and read's recursion passes maxDepth-1 and tests the bound; " +
 		"(2) on every abstract rendering of the struct templates (TMPL engine, see C02): with keep_unknown_fields the unknown-id arm of Read appends to _unknownFields (else it skips), Write emits _unknownFields after all known fields and before WriteFieldStop, and CarryingUnknownFields tests the same field. " +
+		"(3) every Binary.Write* into the self-growing unknown-fields buffer is preceded by ensureBytesLen at the same offset whose length argument, evaluated symbolically through binary.go (constants and len() terms), covers the byte count the write returns. " +
 		"NOT decided: byte-level preservation of values across schema pairs."
 	c.RuleText = "one obligation per (switch arm, rule) and per rendering-level rule; non-trivial = needed arm/method agreement, recursion or path reasoning"
 	c.Assume = []string{"the TProtocol implementation behind iprot/oprot follows the binary protocol", "templates are recursive in one context parameter beyond the rendering depth bound"}
